@@ -86,16 +86,17 @@ structure Group where
 def members (p : Prog) (labels : List Nat) (g : Nat) : List Nat :=
   (List.range p.length).filter fun n => labels.getD n 0 == g
 
-/-- `feeds_excluded_layer`: the features of node `n` reach — unchanged, flattened or concatenated
-with others, i.e. through nodes that do not define features — a layer excluded from the search.
-Users come later in SSA order, so one backward sweep computes the forward reachability. -/
-def reachExcluded (p : Prog) : List Bool :=
+/-- `feeds_unprunable_consumer`: the features of node `n` reach — unchanged, flattened or
+concatenated with others, i.e. through nodes that do not define features — a layer excluded from
+the search or a network output.  Users come later in SSA order, so one backward sweep computes the
+forward reachability. -/
+def reachFixed (p : Prog) : List Bool :=
   (List.range p.length).foldr (fun n (r : List Bool) =>
     r.set n (p.zipIdx.any fun (op, u) =>
-      op.inputs.contains n && (op.excluded || (!op.defining && r.getD u false))))
+      op.inputs.contains n && (op.excluded || op.isOutput || (!op.defining && r.getD u false))))
     (List.replicate p.length false)
 
-def feedsExcluded (p : Prog) (n : Nat) : Bool := (reachExcluded p).getD n false
+def feedsExcluded (p : Prog) (n : Nat) : Bool := (reachFixed p).getD n false
 
 /-- masker of a component: exists iff the component holds a features-defining node; frozen iff
 the component touches a network input or output, feeds an excluded layer or contains one -/
